@@ -402,10 +402,10 @@ def partialShortcutPathG (E : PsEnv σ) (fixed : Bool) (u : Nat → Float) (maxS
     let maxEmpty := if maxEmpty = 0 then path.length else maxEmpty
     psLoopG E fixed u rangeRatio snap maxEmpty maxSteps 0 0 path false
 
-/-- the loop with the repair proposed in notes/C17-fix-F170.diff: the two sampled points are put in path order
-BEFORE `checkMotion` is called, so the motion that is validated is the motion that is spliced in (the tree's
-code validates `(s0, s1)` in SAMPLING order and splices `(earlier, later)`: for a direction-sensitive
-validator the spliced motion may be the reverse of the validated one — finding F170) -/
+/-- the loop AS IT IS IN THE TREE (since fix 7afd3abe1, F170): the two sampled points are put in path order BEFORE
+`checkMotion` is called, so the motion that is validated is the motion that is spliced in.  (`psLoopG` is the code
+before that fix: it validated `(s0, s1)` in SAMPLING order and spliced `(earlier, later)`, so for a
+direction-sensitive validator the spliced motion could be the reverse of the validated one.) -/
 def psLoopOrd (E : PsEnv σ) (u : Nat → Float) (rangeRatio snap : Float) (maxEmpty : Nat) :
     (fuel i nochange : Nat) → List σ → Bool → Option (List σ × Bool)
   | 0, _, _, st, res => some (st, res)
@@ -462,7 +462,8 @@ def partialShortcutPathOrd (E : PsEnv σ) (u : Nat → Float) (maxSteps maxEmpty
     let maxEmpty := if maxEmpty = 0 then path.length else maxEmpty
     psLoopOrd E u rangeRatio snap maxEmpty maxSteps 0 0 path false
 
-/-- `partialShortcutPath` as it is in the tree (since fix f9a435dd6: snap tests use `<=`) -/
+/-- `partialShortcutPath` BEFORE fix 7afd3abe1 (F170) and after fix f9a435dd6 (F55): snap tests use `<=`, `checkMotion`
+in sampling order.  The tree's code is `partialShortcutPathOrd`. -/
 def partialShortcutPath (E : PsEnv σ) (u : Nat → Float) (maxSteps maxEmpty : Nat) (rangeRatio snap : Float)
     (path : List σ) : Option (List σ × Bool) := partialShortcutPathG E true u maxSteps maxEmpty rangeRatio snap path
 
